@@ -189,3 +189,8 @@ package openapi3
 //@   modifies nothing
 //@   ensures result.1 == nil && result.0 != nil
 //@   tag C08
+
+//@ func NewPathsWithCapacity
+//@   modifies nothing
+//@   fresh
+//@   ensures result != nil
